@@ -300,7 +300,7 @@ func mspecsC13(tier string) []*mc.MSpec {
 		Monitors: allMons(queryMon),
 		Menu: func(w *mc.World, r *mc.Req) []mc.Outcome {
 			if all := queryMenu(w, r); all != nil {
-				return pickOutcomes(all, "model", "events", "timeout")
+				return pickOutcomes(all, "model", "events", "timeout", "noresp")
 			}
 			return nil
 		},
